@@ -288,7 +288,8 @@ tzm_find(tzmap_t m, const char *mname)
 			/* ran off the mapped names, can't be a mapping */
 			return NULL;
 		}
-		if (*mp - *tp < 0) {
+		/* keys are ordered byte-wise, like strcmp() and tzmap check do */
+		if ((unsigned char)*mp < (unsigned char)*tp) {
 			/* use lower half */
 			ep = (const znoff_t*)p - 1U;
 		} else {
@@ -305,7 +306,7 @@ tzm_find(tzmap_t m, const char *mname)
 				return NULL;
 			}
 
-			if (*mp - *tp > 0) {
+			if ((unsigned char)*mp > (unsigned char)*tp) {
 				/* use upper half */
 				sp = op + 1U;
 			} else {
